@@ -22,6 +22,10 @@ func (o *Property) Type() *Type {
 }
 
 func (p *Property) M__get__(instance, owner Object) (Object, error) {
+	if instance == None {
+		// read on the class, not on an instance
+		return p, nil
+	}
 	if p.Fget == nil {
 		return nil, ExceptionNewf(AttributeError, "can't get attribute")
 	}
